@@ -27,7 +27,7 @@ InDomain_C07(e) ==
    /\ (e.op \in {"shl", "shr"} => e.r <= W - 1)
 Ok_C07(e) == InDomain_C07(e) => (e.ub = "" /\ e.trap = "")
 
-OkProp(p, pv, e) ==
+OkCore(p, pv, e) ==
    CASE p = "C01" -> Ok_C01(e) [] p = "C02" -> Ok_C02(e) [] p = "C03" -> Ok_C03(e)
      [] p = "C04" -> Ok_C04(e) [] p = "C06" -> Ok_C06(e)
      [] p = "C13" -> Ok_C13(e) /\ (pv.op # "none" => Ok_C13_mono(pv, e))
@@ -35,14 +35,14 @@ OkProp(p, pv, e) ==
      [] p = "C07" -> Ok_C07(e)
      [] OTHER -> TRUE
 
-Relevant(p, pv, e) ==
+RelCore(p, pv, e) ==
    CASE p = "C01" -> Rel_C01(e) [] p = "C02" -> Rel_C02(e) [] p = "C03" -> Rel_C03(e)
      [] p = "C04" -> Rel_C04(e) [] p = "C06" -> Rel_C06(e) [] p = "C13" -> Rel_C13(e)
      [] p = "C15" -> Rel_C15(e) [] p = "C18" -> Rel_C18(e) [] p = "C07" -> InDomain_C07(e)
      [] OTHER -> FALSE
 
 Judge(p, pv, e) ==
-   IF OkProp(p, pv, e) THEN "ok"
+   IF OkCore(p, pv, e) THEN "ok"
    ELSE IF \E d \in EnabledDeviations : Covers(d, p, e)
         THEN CHOOSE d \in EnabledDeviations : Covers(d, p, e)
         ELSE "violation"
